@@ -197,9 +197,9 @@ Proof.
   cbn [split_on is_lit elem_bytes]. now rewrite (so_go_eb es bs Hes).
 Qed.
 
-(** ---- splitQuoted ---- *)
+(** ---- splitQuoted (pinned), on strings without backslash ---- *)
 Definition good (st : sq) : Prop :=
-  inq st = false /\ inw st = false /\ escd st = false /\ word st = [] /\ prev st <> Some BS.
+  inq st = false /\ inw st = false /\ word st = [] /\ prev_is_bs st = false.
 
 Lemma sq_run_app : forall a st b, sq_run st (a ++ b) = bind (sq_run st a) (fun st' => sq_run st' b).
 Proof.
@@ -207,49 +207,55 @@ Proof.
   destruct (sq_step st c); cbn [bind]; [apply IH|reflexivity].
 Qed.
 
-(** the escaped body of a quoted string *)
-Lemma sq_escb : forall b iw w r p,
-  exists p', sq_run (mks true iw false w r p) (escb b) = Ok (mks true iw false (b :: w) r p').
+Definition nobs (s : list N) : Prop := Forall (fun b => b <> BS) s.
+Definition pbs (p : option N) : bool := match p with Some b => b =? BS | None => false end.
+
+(** one source byte of a quoted string, escaped *)
+Lemma sq_escb : forall b iw w r p, b <> BS -> pbs p = false ->
+  exists p', sq_run (mks true iw w r p) (escb b) = Ok (mks true iw (b :: w) r p') /\ pbs p' = false.
 Proof.
-  intros b iw w r p. unfold escb.
-  destruct (N.eqb_spec b BS) as [->|Hb]; [|destruct (N.eqb_spec b DQ) as [->|Hd]].
-  - exists (Some BS). reflexivity.
-  - exists (Some DQ). reflexivity.
-  - exists (Some b). cbn [sq_run]. unfold sq_step. cbn [inq escd word res inw].
-    now rewrite (neq_eqb _ _ Hb), (neq_eqb _ _ Hd).
+  intros b iw w r p Hb Hp. unfold escb. rewrite (neq_eqb _ _ Hb).
+  destruct (N.eqb_spec b DQ) as [->|Hd].
+  - exists (Some DQ). split; [|reflexivity]. cbn [sq_run].
+    assert (E1 : sq_step (mks true iw w r p) BS = Ok (mks true iw (BS :: w) r (Some BS))).
+    { destruct iw; reflexivity. }
+    rewrite E1. cbn [bind]. reflexivity.
+  - exists (Some b). split; [|cbn; exact (neq_eqb _ _ Hb)]. cbn [sq_run]. unfold sq_step.
+    rewrite (neq_eqb _ _ Hd). cbn [inq inw word res negb]. destruct iw; reflexivity.
 Qed.
 
-Lemma sq_body : forall s iw w r p,
-  exists p', sq_run (mks true iw false w r p) (flat_map escb s) = Ok (mks true iw false (List.rev s ++ w) r p').
+Lemma sq_body : forall s iw w r p, nobs s -> pbs p = false ->
+  exists p', sq_run (mks true iw w r p) (flat_map escb s) = Ok (mks true iw (List.rev s ++ w) r p') /\ pbs p' = false.
 Proof.
-  induction s as [|b s IH]; intros iw w r p.
-  - exists p. reflexivity.
-  - cbn [flat_map]. rewrite sq_run_app. destruct (sq_escb b iw w r p) as (p1 & E1). rewrite E1. cbn [bind].
-    destruct (IH iw (b :: w) r p1) as (p' & E). exists p'. rewrite E. cbn [List.rev]. now rewrite <- app_assoc.
+  induction s as [|b s IH]; intros iw w r p Hs Hp.
+  - exists p. split; [reflexivity|exact Hp].
+  - inversion Hs as [|? ? Hb Hs']; subst. cbn [flat_map]. rewrite sq_run_app.
+    destruct (sq_escb b iw w r p Hb Hp) as (p1 & E1 & P1). rewrite E1. cbn [bind].
+    destruct (IH iw (b :: w) r p1 Hs' P1) as (p' & E & P'). exists p'. split; [|exact P'].
+    rewrite E. cbn [List.rev]. now rewrite <- app_assoc.
 Qed.
 
 (** a whole quoted string, from a state between tokens *)
-Lemma sq_quoted : forall s st, good st ->
-  exists st', sq_run st (quote s) = Ok st' /\ good st' /\ res st' = IStr s :: res st /\ prev st' = Some DQ.
+Lemma sq_quoted : forall s st, good st -> nobs s ->
+  exists st', sq_run st (quote s) = Ok st' /\ good st' /\ res st' = IStr s :: res st.
 Proof.
-  intros s [q iw e w r p] (Hq & Hw & He & Hwd & Hp). cbn in Hq, Hw, He, Hwd, Hp. subst.
+  intros s [q iw w r p] (Hq & Hw & Hwd & Hp) Hs. cbn in Hq, Hw, Hwd. unfold prev_is_bs in Hp. cbn [prev] in Hp. subst.
   rewrite quote_escb. cbn [app sq_run].
-  assert (Hopen : sq_step (mks false false false [] r p) DQ = Ok (mks true false false [] r (Some DQ))).
-  { unfold sq_step. cbn [inq prev word res inw N.eqb DQ Pos.eqb].
-    destruct p as [b|]; [|reflexivity]. destruct (N.eqb_spec b BS) as [->|]; [contradiction|reflexivity]. }
+  assert (Hopen : sq_step (mks false false [] r p) DQ = Ok (mks true false [] r (Some DQ))).
+  { unfold sq_step. cbn [N.eqb DQ Pos.eqb]. unfold prev_is_bs. cbn [prev]. now rewrite Hp. }
   rewrite Hopen. cbn [bind]. rewrite sq_run_app.
-  destruct (sq_body s false [] r (Some DQ)) as (p' & E). rewrite E. cbn [bind sq_run].
+  destruct (sq_body s false [] r (Some DQ) Hs eq_refl) as (p' & E & P'). rewrite E. cbn [bind sq_run].
   rewrite app_nil_r.
-  assert (Hclose : sq_step (mks true false false (List.rev s) r p') DQ
-                   = Ok (mks false false false [] (IStr s :: r) (Some DQ))).
-  { unfold sq_step. cbn [inq escd word res inw N.eqb DQ BS Pos.eqb]. now rewrite rev_involutive. }
+  assert (Hclose : sq_step (mks true false (List.rev s) r p') DQ = Ok (mks false false [] (IStr s :: r) (Some DQ))).
+  { unfold sq_step. cbn [N.eqb DQ Pos.eqb]. unfold prev_is_bs. cbn [prev inq inw word res]. change (match p' with Some b => b =? BS | None => false end) with (pbs p').
+    rewrite P'. cbn [negb]. now rewrite rev_involutive. }
   rewrite Hclose. cbn [bind].
-  eexists. split; [reflexivity|]. split; [|split; reflexivity]. repeat split; discriminate.
+  eexists. split; [reflexivity|]. split; [|reflexivity]. repeat split.
 Qed.
 
 (** an unquoted atom: the machine is inside the word afterwards *)
 Lemma sq_word_tail : forall w acc r p, forallb wordchar w = true ->
-  exists p', sq_run (mks false true false acc r p) w = Ok (mks false true false (List.rev w ++ acc) r p').
+  exists p', sq_run (mks false true acc r p) w = Ok (mks false true (List.rev w ++ acc) r p').
 Proof.
   induction w as [|c w IH]; intros acc r p H.
   - exists p. reflexivity.
@@ -257,14 +263,14 @@ Proof.
     unfold wordchar in Hc. apply andb_true_iff in Hc as [Hws Hdq].
     apply negb_true_iff in Hws. apply negb_true_iff in Hdq.
     destruct (IH (c :: acc) r (Some c) Hw) as (p' & E). exists p'.
-    cbn [sq_run]. unfold sq_step. cbn [inq inw word res]. rewrite Hdq, Hws. cbn [negb andb bind].
+    cbn [sq_run]. unfold sq_step. cbn [inq inw word res]. rewrite Hdq, Hws. cbn [negb andb orb bind].
     rewrite E. cbn [List.rev]. now rewrite <- app_assoc.
 Qed.
 
 Lemma sq_word : forall w st, good st -> w <> [] -> forallb wordchar w = true ->
-  exists p', sq_run st w = Ok (mks false true false (List.rev w) (res st) p').
+  exists p', sq_run st w = Ok (mks false true (List.rev w) (res st) p').
 Proof.
-  intros w [q iw e wd r p] (Hq & Hw & He & Hwd & Hp) Hne H. cbn in Hq, Hw, He, Hwd, Hp. subst.
+  intros w [q iw wd r p] (Hq & Hw & Hwd & Hp) Hne H. cbn in Hq, Hw, Hwd. subst.
   destruct w as [|c w]; [contradiction|].
   cbn [forallb] in H. apply andb_true_iff in H as [Hc Hrest].
   unfold wordchar in Hc. apply andb_true_iff in Hc as [Hws Hdq].
@@ -276,8 +282,9 @@ Qed.
 
 (** ---- flat lists of atoms ---- *)
 Definition quotable (s : list N) : Prop := needs_literal s = false.
+(** None, integers, and byte strings that are sent quoted and contain no backslash *)
 Definition flat_atom (i : item) : Prop :=
-  match i with INil | IInt _ => True | IStr s => quotable s | IList _ => False end.
+  match i with INil | IInt _ => True | IStr s => quotable s /\ nobs s | IList _ => False end.
 
 Lemma emit_word_rev : forall w, emit_word (List.rev w) = if list_eq_dec N.eq_dec w NIL then INil else IStr w.
 Proof. intros w. unfold emit_word. now rewrite rev_involutive. Qed.
@@ -291,22 +298,23 @@ Proof.
             exists st', bind (sq_run st w) (fun s1 => sq_run s1 [SP]) = Ok st' /\ good st'
                         /\ res st' = (if list_eq_dec N.eq_dec w NIL then INil else IStr w) :: res st).
   { intros w (Hne & Hwc & _ & _). destruct (sq_word w st Hg Hne Hwc) as (p' & E). rewrite E. cbn [bind sq_run].
-    change (sq_step (mks false true false (List.rev w) (res st) p') SP)
-      with (Ok (mks false false false [] (emit_word (List.rev w) :: res st) (Some SP))).
+    change (sq_step (mks false true (List.rev w) (res st) p') SP)
+      with (Ok (mks false false [] (emit_word (List.rev w) :: res st) (Some SP))).
     cbn [bind]. rewrite emit_word_rev.
-    eexists. split; [reflexivity|]. split; [|reflexivity]. repeat split; discriminate. }
+    eexists. split; [reflexivity|]. split; [|reflexivity]. repeat split. }
   destruct i as [|z|s|l]; cbn [piece norm]; try contradiction.
   - destruct (Hword NIL NIL_atomtext) as (st' & E & G & R). exists st'. split; [exact E|]. split; [exact G|].
     rewrite R. destruct (list_eq_dec N.eq_dec NIL NIL) as [_|Hn]; [reflexivity|now contradiction Hn].
   - destruct (dec_Z_atomtext z) as [Ha Hn]. destruct (Hword _ Ha) as (st' & E & G & R).
     exists st'. split; [exact E|]. split; [exact G|]. rewrite R.
     destruct (list_eq_dec N.eq_dec (dec_Z z) NIL); [contradiction|reflexivity].
-  - cbn [flat_atom] in Hi. unfold quotable in Hi. rewrite Hi.
-    destruct (sq_quoted s st Hg) as (s1 & E & (G1 & G2 & G3 & G4 & G5) & R & P). rewrite E. cbn [bind sq_run].
-    destruct s1 as [q iw e w r p]. cbn in G1, G2, G3, G4, R, P. subst.
-    change (sq_step (mks false false false [] (IStr s :: res st) (Some DQ)) SP)
-      with (Ok (mks false false false [] (IStr s :: res st) (Some SP))).
-    eexists. split; [reflexivity|]. split; [|reflexivity]. repeat split; discriminate.
+  - cbn [flat_atom] in Hi. destruct Hi as [Hi Hs]. unfold quotable in Hi. rewrite Hi.
+    destruct (sq_quoted s st Hg Hs) as (s1 & E & (G1 & G2 & G3 & G4) & R). rewrite E. cbn [bind sq_run].
+    destruct s1 as [q iw w r p]. cbn in G1, G2, G3, R. subst.
+    assert (Hsp : sq_step (mks false false [] (IStr s :: res st) p) SP = Ok (mks false false [] (IStr s :: res st) (Some SP))).
+    { reflexivity. }
+    rewrite Hsp. cbn [bind].
+    eexists. split; [reflexivity|]. split; [|reflexivity]. repeat split.
 Qed.
 
 (** the last atom, followed by the end of the input *)
@@ -323,8 +331,8 @@ Proof.
   - rewrite (Hword NIL NIL_atomtext). destruct (list_eq_dec N.eq_dec NIL NIL) as [_|Hn]; [reflexivity|now contradiction Hn].
   - destruct (dec_Z_atomtext z) as [Ha Hn]. rewrite (Hword _ Ha).
     destruct (list_eq_dec N.eq_dec (dec_Z z) NIL); [contradiction|reflexivity].
-  - cbn [flat_atom] in Hi. unfold quotable in Hi. rewrite Hi.
-    destruct (sq_quoted s st Hg) as (s1 & E & (G1 & G2 & G3 & G4 & G5) & R & P). rewrite E. cbn [bind].
+  - cbn [flat_atom] in Hi. destruct Hi as [Hi Hs]. unfold quotable in Hi. rewrite Hi.
+    destruct (sq_quoted s st Hg Hs) as (s1 & E & (G1 & G2 & G3 & G4) & R). rewrite E. cbn [bind].
     unfold sq_finish. now rewrite G1, G2, R.
 Qed.
 
@@ -371,7 +379,7 @@ Proof.
   intros [|z|s|l] H; cbn [piece]; try contradiction.
   - apply atomtext_ends, NIL_atomtext.
   - apply atomtext_ends, dec_Z_atomtext.
-  - cbn [flat_atom] in H. unfold quotable in H. rewrite H. unfold quote. split; [reflexivity|].
+  - cbn [flat_atom] in H. destruct H as [H _]. unfold quotable in H. rewrite H. unfold quote. split; [reflexivity|].
     rewrite !rev_app_distr. reflexivity.
 Qed.
 
@@ -392,20 +400,27 @@ Proof.
   intros l Hl. destruct l as [|i l]; [reflexivity|].
   destruct (collapse_ends (i :: l) Hl) as [E1 E2]; [discriminate|].
   unfold split_quoted. rewrite (strip_id _ E1 E2).
-  rewrite (sq_flat (i :: l) sq_init) by (try assumption; try discriminate; repeat split; discriminate).
+  rewrite (sq_flat (i :: l) sq_init) by (try assumption; try discriminate; repeat split).
   reflexivity.
 Qed.
 
-(** the F16 statement: every byte string survives _quote followed by splitQuoted *)
-Lemma quote_roundtrip : forall s, split_quoted (quote s) = Ok [IStr s].
+(** every backslash-free byte string survives _quote followed by splitQuoted *)
+Lemma quote_roundtrip : forall s, nobs s -> split_quoted (quote s) = Ok [IStr s].
 Proof.
-  intros s. unfold split_quoted.
+  intros s Hs. unfold split_quoted.
   assert (E1 : hd_ok (quote s) = true) by reflexivity.
   assert (E2 : hd_ok (List.rev (quote s)) = true) by (unfold quote; rewrite !rev_app_distr; reflexivity).
   rewrite (strip_id _ E1 E2).
-  destruct (sq_quoted s sq_init) as (s1 & E & (G1 & G2 & _) & R & _); [repeat split; discriminate|].
+  destruct (sq_quoted s sq_init) as (s1 & E & (G1 & G2 & _) & R); [repeat split|exact Hs|].
   rewrite E. cbn [bind]. unfold sq_finish. now rewrite G1, G2, R.
 Qed.
+
+(** F16: the full statement is false of the pinned code *)
+Lemma roundtrip_refuted :
+  parse (collapse [IStr [97; 92]]) = Err EQuoting
+  /\ parse (collapse [IStr [120; 92; 34; 121]]) = Ok [IStr [120; 92; 92; 34; 121]]
+  /\ split_quoted (quote [92]) = Err EQuoting.
+Proof. repeat split; vm_compute; reflexivity. Qed.
 
 (** ---- the scanner accepts the serialisation of a flat list ---- *)
 Lemma qrun_atomtext : forall w, atomtext w -> qrun QNorm w = Some QNorm.
@@ -427,7 +442,7 @@ Proof.
   intros [|z|s|l] H; cbn [piece]; try contradiction.
   - apply qrun_atomtext, NIL_atomtext.
   - apply qrun_atomtext, dec_Z_atomtext.
-  - cbn [flat_atom] in H. unfold quotable in H. rewrite H, quote_escb.
+  - cbn [flat_atom] in H. destruct H as [H _]. unfold quotable in H. rewrite H, quote_escb.
     cbn [app qrun qstep N.eqb DQ Pos.eqb]. rewrite qrun_app, qrun_body. reflexivity.
 Qed.
 
@@ -448,14 +463,14 @@ Proof.
   rewrite Hs. cbn [bind]. rewrite (collapse_strings_eb es Heb), Hby. apply split_quoted_flat, Hl.
 Qed.
 
-(** nested structures with literals: evaluated, not proved (see design.d/C42.md) *)
+(** nested structures with literals (backslash-free): evaluated, not proved (see design.d/C42.md) *)
 Example nested_examples :
   let x := [INil; IInt 5; IStr NIL; IList [IStr []; IList [IStr [40]]; IList []]; IStr [97; 10; 98];
-            IStr [34; 92]; IList [IStr [92]; IStr [13; 10; 32]]; IStr [120; 10; 32]] in
+            IStr [34; 34]; IList [IStr [123; 51; 125]; IStr [13; 10; 32]]; IStr [120; 10; 32]] in
   parse (collapse x) = Ok (map norm x).
 Proof. vm_compute. reflexivity. Qed.
 
 (** the hypotheses of the flat theorem are inhabited by a hostile list *)
 Example hostile_flat :
-  Forall flat_atom [IStr [92]; IStr [97; 92]; IStr [34; 92; 34]; INil; IStr NIL; IInt (-25); IStr []; IStr [40; 123; 51; 125; 41; 32]].
-Proof. repeat constructor. Qed.
+  Forall flat_atom [IStr [34]; IStr [34; 32; 34]; INil; IStr NIL; IInt (-25); IStr []; IStr [40; 123; 51; 125; 41; 32]].
+Proof. repeat constructor; discriminate. Qed.
